@@ -52,7 +52,9 @@ assert len(SENSE_CODONS) == 61 and GENETIC_CODE["ATG"] == "M" and GENETIC_CODE["
 assert sorted(c for c, a in GENETIC_CODE.items() if a == "*") == ["TAA", "TAG", "TGA"]
 # NCBI table 2 (vertebrate mitochondrial): AGA, AGG stop; ATA Met; TGA Trp
 _VERT_MITO = dict(GENETIC_CODE, AGA="*", AGG="*", ATA="M", TGA="W")
-CODES = {1: GENETIC_CODE, 2: _VERT_MITO}
+# NCBI table 4 (mold / protozoan mitochondrial): UGA is Trp; table 15 (Blepharisma nuclear): UAG is Gln.  Both leave 62
+# sense codons -- the same number, another set
+CODES = {1: GENETIC_CODE, 2: _VERT_MITO, 4: dict(GENETIC_CODE, TGA="W"), 15: dict(GENETIC_CODE, TAG="Q")}
 
 
 # ----------------------------------------------------------------------------------------------- trees
